@@ -548,18 +548,26 @@ def run_case(case):
         check_circuit(c, case["cdc"], [0.013, 1.7, 240.0, 3.1e4], st, mx, viol, w)
         check_limits(c, "circuit " + case["cdc"], st, mx, viol, w)
         evals = 1
+    elif k == "tree":
+        c = G.build_objects(case["tree"])
+        w = {"tree": G.brief(G.nf(case["tree"])), "replay_case": case}
+        check_circuit(c, c.to_string(6)[:200], [0.02, 3.3, 510.0, 7.7e4], st, mx, viol, w)
+        evals = 1
     elif k == "circ":
         for j in range(case["count"]):
             n = int(rng.integers(1, 6))
             syms = None if rng.random() < 0.5 else ["R", "C", "L", "Q", "W", "Ws", "Wo", "Zarc", "G", "Tlm", "Tlmbo", "K"]
             t = G.random_tree(rng, n, mode="physical", max_sub_depth=1, leaf_syms=syms, label_classes=["none"])
+            if rng.random() < 0.12:
+                G.inject_empty_series(rng, t)  # a short spelled as an empty nested Series (object API only)
+                st["circuits_with_empty_nested_series"] = st.get("circuits_with_empty_nested_series", 0) + 1
             try:
                 c = G.build_objects(t)
                 text = c.to_string(17)
             except Exception as ex:
                 viol.append({"key": f"C02/build-raised:{type(ex).__name__}", "msg": monitors.tb_tail(ex), "witness": {"tree": G.brief(G.nf(t))}})
                 continue
-            w = {"cdc": text, "replay_case": {"kind": "cdc", "cdc": text}}
+            w = {"cdc": text, "replay_case": {"kind": "cdc", "cdc": text} if not t.get("_objects_only") else {"kind": "tree", "tree": t}}
             check_circuit(c, text[:200], [0.02, 3.3, 510.0, 7.7e4], st, mx, viol, w)
             slow_decay = any((0.97 < G.dec(e["p"][k][0]) < 1.0 or G.dec(e["p"][k][0]) < 0.03) for e in G.iter_elements(t) for k in e["p"] if k in G.EXPONENT_KEYS)
             if j == 0 and n <= 3 and not slow_decay:
